@@ -9,6 +9,7 @@ import (
 	"io"
 	"net/http"
 	"net/http/httptest"
+	"sync"
 	"time"
 
 	jsonrpc "github.com/filecoin-project/go-jsonrpc"
@@ -23,6 +24,7 @@ type readerClientR struct {
 	ConsumeAsync func(ctx context.Context, r io.Reader, tag string) (<-chan int64, error)
 	Consume      func(ctx context.Context, r io.Reader, pattern int, tag string) (Digest, error)
 	ConsumeR     func(ctx context.Context, r io.Reader, pattern int, tag string) (Digest, error) `retry:"true" rpc_method:"R.Consume"`
+	Missing      func(ctx context.Context, r io.Reader, tag string) error                        `rpc_method:"R.NotThere"` // version skew: the server has no such method
 }
 
 // c20Special: reader parameters combined with other features of the client.
@@ -78,6 +80,58 @@ func c20Special(sc core.Scenario, r *core.R) {
 	d, err := cl.Consume(bg, bytes.NewReader(warm), pReadAll, "warm")
 	check("warm-up", warm, d, err)
 	switch sc.Kind {
+	case "after-failed-calls":
+		// reader-carrying calls that never reach a handler (unknown method, context already done) must not use
+		// up anything later calls need
+		n := sc.I("n")
+		for i := 0; i < n; i++ {
+			fo := Go("m", func() (string, error) {
+				return "", cl.Missing(bg, bytes.NewReader(payload(3000, 0, rng, byte(i))), "m")
+			})
+			if !fo.Wait(core.Grace) {
+				r.Violate("reader-call-hang", "reader-carrying call #%d to a method the server does not have never returned", i)
+				break
+			} else if fo.Err == nil {
+				r.Violate("reader-call-failed", "reader-carrying call to a method the server does not have returned nil")
+			}
+			cctx, ccancel := context.WithCancel(bg)
+			ccancel()
+			co := Go("c", func() (string, error) {
+				_, err := cl.Consume(cctx, bytes.NewReader(payload(3000, 1, rng, byte(i))), pReadAll, "c")
+				return "", err
+			})
+			if !co.Wait(core.Grace) {
+				r.Violate("reader-call-hang", "reader-carrying call #%d with an already cancelled context never returned", i)
+				break
+			}
+		}
+		r.Obs("reader_calls", int64(2*n))
+		var wg sync.WaitGroup
+		type res struct {
+			data []byte
+			d    Digest
+			err  error
+		}
+		rs := make([]res, 6)
+		for i := range rs {
+			rs[i].data = payload(20000+i, 0, rng, byte(40+i))
+		}
+		for i := range rs {
+			wg.Add(1)
+			go func(i int) {
+				defer wg.Done()
+				rs[i].d, rs[i].err = cl.Consume(bg, bytes.NewReader(rs[i].data), pReadAll, fmt.Sprintf("n%d", i))
+			}(i)
+		}
+		done := make(chan struct{})
+		go func() { wg.Wait(); close(done) }()
+		if !core.WaitCh(done, 2*core.Grace) {
+			r.Violate("reader-call-hang", "after %d reader-carrying calls that were rejected or cancelled, ordinary reader-carrying calls on the same client never returned", 2*n)
+		} else {
+			for i := range rs {
+				check(fmt.Sprintf("call %d after %d rejected/cancelled reader calls", i, 2*n), rs[i].data, rs[i].d, rs[i].err)
+			}
+		}
 	case "retry-outage":
 		for i := 0; i < 3; i++ {
 			data := payload([]int{11, 4097, 70000}[i], 0, rng, byte(i+2))
